@@ -330,7 +330,7 @@ func runC13(seed uint64, n, t, victim int, crashes []int) c13Outcome {
 }
 
 func checkC13(c *Ctx) {
-	c.Rule = "fault enumeration: a reference run (full key generation + one signed batch, victim on real LevelDB, stepped Poll) yields the victim's sequence of durable effects (state Set/Delete/SaveOffset, board Send). For every effect index k the run is repeated with a kill before effect k (= after effect k-1): the database directory is copied as it is on disk, the old instance abandoned, and the node restarted on the copy through services.CreateServiceProviderWithCfg. Judged right after restart (offset == last saved, pending operations == pending before the kill) and at the end (every node signing-idle, same public projection, valid signature stored, offset == board length). Victim = every node, n in {2,3}; thorough adds double crashes. A live-mode part runs the real Poll() against gated decorators and checks its trace shape. distinct = distinct (n, victim, crash-point class) judged"
+	c.Rule = "fault enumeration: a reference run (full key generation + one signed batch, victim on real LevelDB, stepped Poll) yields the victim's sequence of durable effects (state Set/Delete/SaveOffset, board Send). For every effect index k the run is repeated with a kill before effect k (= after effect k-1): the database directory is copied as it is on disk, the old instance abandoned, and the node restarted on the copy through services.CreateServiceProviderWithCfg. Judged right after restart (offset == last saved, pending operations == pending before the kill) and at the end (every node signing-idle, same public projection, valid signature stored, offset == board length). Victim = every node, n in {2,3}; thorough adds double crashes. A live-mode part runs the real Poll() against gated decorators and checks its trace shape. The first nine effect indices of every reference run are enumerated in the quick tier too. distinct = distinct (n, victim, crash-point class) judged"
 	c.Assumptions = []string{"a single LevelDB Put is atomic (WAL); 'in the middle of a write' = between the writes of one logical update", "stepped Poll performs exactly the calls of BaseNodeService.Poll; the conformance part checks that shape on the real Poll", "operators re-submit the cached result file after a crash"}
 	type job struct {
 		n, t, victim int
@@ -366,6 +366,13 @@ func checkC13(c *Ctx) {
 		c.Sample(map[string]interface{}{"n": r.n, "t": r.t, "victim": r.victim, "durable_effects_in_reference_run": o.Effects, "board_len": o.Board, "effect_classes_head": o.Classes[:min(12, len(o.Classes))]})
 		for k := 1 + i%stride; k <= o.Effects+1; k += stride {
 			jobs = append(jobs, job{r.n, r.t, r.victim, []int{k}, i})
+		}
+		// the start of the log (opening proposal, first answers: offset still 0 or small) is enumerated at every
+		// index in the quick tier too: what a restart makes of a nearly empty store differs from the general case
+		for k := 1; k <= 9 && k <= o.Effects && stride > 1; k++ {
+			if (k-1-i%stride)%stride != 0 {
+				jobs = append(jobs, job{r.n, r.t, r.victim, []int{k}, i})
+			}
 		}
 		// directed witness of the open finding: the first fsm_state -> operations window of the run
 		for k := 1; k < len(o.Classes) && stride > 1; k++ {
